@@ -23,9 +23,13 @@ def check_db(conn):
     d = db.get(1)
     if not d or d[0] is not conn.display or d[0].type != 'wl_display':
         _viol('inv-display', 'db[1][0] is not the wl_display of connection %s' % conn.name())
+    # every incarnation of every id after every message is quadratic in the length of the history: beyond 1500 objects the
+    # full walk happens every 257th call, in between the first and the last three incarnations of each id are looked at
+    full = COUNTS['db_invariant'] % 257 == 0 or sum(len(l) for l in db.values()) < 1500
     for key, lst in db.items():
         alive_seen = 0
-        for idx, ob in enumerate(lst):
+        for idx in (range(len(lst)) if full or len(lst) < 5 else [0] + list(range(len(lst) - 3, len(lst)))):
+            ob = lst[idx]
             if ob.generation != idx or ob.id != key or ob.connection is not conn:
                 _viol('inv-generation', 'db[%r][%d] has id=%r generation=%r on connection %s' % (
                     key, idx, ob.id, ob.generation, conn.name()))
